@@ -548,6 +548,18 @@ def hosts_clip_relu_minmax():
         h.n(o2, ["a", "c2"], "b")
         h.out("b")
         out.append(h.build())
+    # variadic Min / Max with several constants of DIFFERENT ranks (all one-element) in one node
+    for (o1, o2), (s1, s2, s3) in itertools.product([("Min", "Min"), ("Max", "Max"), ("Min", "Max"), ("Max", "Min")],
+                                                   [((), (1, 1), ()), ((1,), (), (1,)), ((), (), (1, 1)), ((1, 1), (1,), ())]):
+        h = H(f"{o2}({o1}(x,c1,c2),c3) x=[2, 3] cshapes={list(s1)},{list(s2)},{list(s3)} mixed-rank constants")
+        h.inp("x", F, (2, 3))
+        h.c("c1", np.full(s1, 1.0, dtype=f32))
+        h.c("c2", np.full(s2, 0.5, dtype=f32), "node")
+        h.c("c3", np.full(s3, 2.0, dtype=f32))
+        h.n(o1, ["x", "c1", "c2"], "a")
+        h.n(o2, ["a", "c3"], "b")
+        h.out("b")
+        out.append(h.build())
     for o1, o2 in [("Min", "Min"), ("Max", "Max"), ("Min", "Max"), ("Max", "Min")]:
         h = H(f"{o2}({o1}(x)) single-input")
         h.inp("x", F, (3,))
